@@ -460,7 +460,7 @@ fn mutate(r: &mut Rng, j: &J) -> J {
     let p = r.pick(&all).clone();
     let mut out = j.clone();
     let node = at(&mut out, &p);
-    let replacement: J = match r.below(22) {
+    let replacement: J = match r.below(23) {
         0 => J::Null,
         1 => json!(1.5),
         2 => json!(9223372036854775808u64),
@@ -482,6 +482,7 @@ fn mutate(r: &mut Rng, j: &J) -> J {
         18 => json!("1.0"),
         19 => json!({"__extn": {"fn": "decimal", "arg": 1.5}}),
         20 => json!({"__entity": {"type": "User", "id": "a"}, "x": 1}),
+        21 => json!({"__extn": {"fn": "unknown", "arg": "x"}}),
         _ => match node.clone() {
             J::Object(mut m) => {
                 // drop or add a member
